@@ -289,7 +289,10 @@ class SimplifyLogic:
         for r in repls:
             assert logic.is_leaf()
             if r in logic.data:
-                cands.append(logic.data.replace(r, repls[r]))
+                cand = logic.data.replace(r, repls[r])
+                if cand:
+                    # nothing left of the name: an empty leaf is no token
+                    cands.append(cand)
         yield from [
             Simplification({node.id: Node('set-logic', c)}, []) for c in cands
         ]
